@@ -530,6 +530,7 @@ func checkC07(c *Ctx) {
 			}
 		}
 	})
+	c.c07FlagHistories()
 	ns := 0
 	for i, cs := range cases {
 		o := outs[i]
@@ -625,4 +626,86 @@ func remnantKey(which, class, edit string) string {
 		return "remnant-of-" + which + ":" + class + "@" + edit
 	}
 	return "remnant-of-" + which + ":" + class
+}
+
+// c07FlagHistories: histories under -autoname / -dedup. The flags rewrite user files, so the state a
+// run leaves behind is the whole package directory; after a further edit one run over that state must
+// give the same tree as a run over the same user sources without derived.gen.go.
+func (c *Ctx) c07FlagHistories() {
+	type fh struct {
+		name, plugin, call, newFile string
+		flags                      []string
+	}
+	var hs []fh
+	for _, pl := range []struct{ name, call string }{{"equal", "func use%s(a, b *%s) bool { return deriveEqual(a, b) }"}, {"hash", "func use%s(a *%s) uint64 { return deriveHash(a) }"}, {"compare", "func use%s(a, b *%s) int { return deriveCompare(a, b) }"}} {
+		for _, nf := range []string{"arc.go", "zeta.go"} {
+			for _, fl := range [][]string{{"-autoname"}, {"-autoname", "-dedup"}} {
+				hs = append(hs, fh{pl.name + "-" + nf + "-" + strings.Join(fl, ""), pl.name, pl.call, nf, fl})
+			}
+		}
+	}
+	if c.Quick {
+		var keep []fh
+		for i, h := range hs {
+			if i%2 == int(c.Seed%2) {
+				keep = append(keep, h)
+			}
+		}
+		hs = keep
+	}
+	types := "type Circle struct{ R int }\n\ntype Square struct{ S []int }\n\ntype Arc struct{ A, B float64 }\n\ntype Tri struct{ P [3]*int }\n\n"
+	parallel(len(hs), 6, func(i int) {
+		h := hs[i]
+		c.Run.Eval(1)
+		dir := c.Env.Dir("c07-flags")
+		defer os.RemoveAll(dir)
+		v1 := "package p\n\n" + types + fmt.Sprintf(h.call, "Circle", "Circle") + "\n\n" + fmt.Sprintf(h.call, "Square", "Square") + "\n"
+		grun.WriteTree(dir, map[string]string{"go.mod": pgen.GoMod, "p/shapes.go": v1})
+		g1 := c.Goderive(dir, append(append([]string{}, h.flags...), "./p"))
+		if g1.Exit != 0 {
+			c.Run.Inconclusive("flag history " + h.name + ": first run fails (left to C11): " + firstLine(g1.Stderr))
+			return
+		}
+		// the edit: a new file with a third call under the same name, and a fourth type in the old file
+		newSrc := "package p\n\n" + fmt.Sprintf(h.call, "Arc", "Arc") + "\n"
+		os.WriteFile(filepath.Join(dir, "p", h.newFile), []byte(newSrc), 0o644)
+		f, _ := os.ReadFile(filepath.Join(dir, "p", "shapes.go"))
+		os.WriteFile(filepath.Join(dir, "p", "shapes.go"), append(f, []byte("\n"+fmt.Sprintf(h.call, "Tri", "Tri")+"\n")...), 0o644)
+		scratch := c.Env.Dir("c07-flags-ref")
+		defer os.RemoveAll(scratch)
+		grun.CopyTree(dir, scratch)
+		os.Remove(filepath.Join(scratch, "p", "derived.gen.go"))
+		before := treeFiles(dir, "tree")
+		gA := c.Goderive(dir, append(append([]string{}, h.flags...), "./p"))
+		gB := c.Goderive(scratch, append(append([]string{}, h.flags...), "./p"))
+		viol := func(sym, detail string) {
+			c.Run.Violate(report.Violation{Key: "history:flags-add-file|" + sym, Summary: fmt.Sprintf("history under %v (%s, new file %s): %s", h.flags, h.plugin, h.newFile, sym), Detail: detail, Files: before,
+				Replay: replayScript(strings.Join(append(append([]string{}, h.flags...), "./p"), " ")+" || exit 1", "go build ./p || exit 1\nexit 0")})
+		}
+		if gB.Exit != 0 {
+			c.Run.Inconclusive("flag history " + h.name + ": from-scratch run fails: " + firstLine(gB.Stderr))
+			return
+		}
+		if gA.Exit != 0 {
+			viol("run-fails", trunc(gA.Stderr, 800))
+			return
+		}
+		a, b := treeFiles(filepath.Join(dir, "p"), ""), treeFiles(filepath.Join(scratch, "p"), "")
+		for _, name := range sortedKeys(b) {
+			if a[name] != b[name] {
+				viol("tree-differs-from-scratch", name+": "+firstDiff(b[name], a[name]))
+				return
+			}
+		}
+		if len(a) != len(b) {
+			viol("tree-differs-from-scratch", fmt.Sprintf("files: %v vs %v", sortedKeys(a), sortedKeys(b)))
+			return
+		}
+		if bl := c.Go(dir, "build", "./p"); bl.Exit != 0 {
+			viol("does-not-compile", trunc(bl.Stderr, 600))
+			return
+		}
+		c.Run.Distinct("history:flags-add-file|" + h.name)
+		c.Run.Count("class:history:flags-add-file", 1)
+	})
 }
